@@ -31,6 +31,15 @@ Definition new_start_building_file (p : path) : M unit :=
   new_assert_no_file p ;;;
   modify (fun w => let c := w_new w in
                    set_new (cache_with c (files_set (c_files c) p None) (c_subs c) (c_dirs c) (c_built c ++ [p])) w).
+Fixpoint files_del (l : list (path * option op)) (p : path) : list (path * option op) :=
+  match l with
+  | [] => []
+  | (q, o) :: r => if path_eqb q p then files_del r p else (q, o) :: files_del r p
+  end.
+(* abort_building_file: undo start_building_file *)
+Definition new_abort_building_file (p : path) : M unit :=
+  modify (fun w => let c := w_new w in
+                   set_new (cache_with c (files_del (c_files c) p) (c_subs c) (c_dirs c) (del_path p (c_built c))) w).
 Definition new_finish_building_file (p : path) (o : op) : M unit :=
   modify (fun w => let c := w_new w in
                    set_new (cache_with c (files_set (c_files c) p (Some o)) (c_subs c) (c_dirs c) (c_built c)) w).
@@ -377,9 +386,12 @@ Definition m_build_file (p : path) (c : cmpmode) (fname : string) (args kwargs :
            | Some (inl o) => ret (Some (inl o))
            | Some (inr eo) => m_bd_error p ;;; ret (Some (inr eo))
            | None =>
-               w <- get ;;
-               (if isfile (w_fs w) p then b <- back_up_and_remove p ;; ret tt else ret tt) ;;;
+               (* claim first, then move whatever is there out of the way; release the claim
+                  again if that fails *)
                new_start_building_file p ;;;
+               catch (w <- get ;;
+                      if isfile (w_fs w) p then b <- back_up_and_remove p ;; ret tt else ret tt)
+                     (fun e => new_abort_building_file p ;;; raise e) ;;;
                ret None
            end)
           (fun e => m_bd_error p ;;; raise e) in
@@ -396,7 +408,7 @@ Definition m_build_file (p : path) (c : cmpmode) (fname : string) (args kwargs :
           let fail (e : exn) (w : world) :=
             (* _handle_error_building_file *)
             let o := mkop subs PNone PNone true false in
-            match (m_bd_error p ;;; try_to_remove_file p ;;; new_finish_building_file p o) w with
+            match (try_to_remove_file p ;;; m_bd_error p ;;; new_finish_building_file p o) w with
             | (w', inl _) => (w', (inr e, Some o))
             | (w', inr e') => (w', (inr e', Some (mkop subs PNone PNone true false)))
             end in
